@@ -165,6 +165,12 @@ def _do(w, ev, cfg):
             _, ch, idx = ev
             w.key_for_path([ch, idx])
             explicit.add((w.witness_type, w.default_account_id, ch, idx))
+        elif kind == 'path_bulk':
+            # several keys from an explicit path in one call
+            _, ch, idx, cnt = ev
+            w.keys_for_path([ch, idx], number_of_keys=cnt)
+            for j in range(cnt):
+                explicit.add((w.witness_type, w.default_account_id, ch, idx + j))
         elif kind == 'new_account':
             w.new_account()
         elif kind == 'new_key_acc1':
@@ -344,9 +350,10 @@ SUBS = {'hist': sub_hist}
 
 EV_FULL = [['new_key'], ['new_key_change'], ['get_key'], ['get_key_change'], ['get_keys2'], ['new_keys3'],
            ['path_gap', 0, 7], ['path_gap', 0, 3], ['path_gap', 1, 2], ['new_account'], ['new_key_acc1'], ['new_key_otherwt'],
-           ['get_keys_otherwt'],
+           ['get_keys_otherwt'], ['path_bulk', 1, 0, 3],
            ['mark_used'], ['public_master'], ['reopen']]
 EV_SMALL = [['new_key'], ['new_key_change'], ['get_key'], ['get_keys2'], ['path_gap', 0, 5], ['path_gap', 0, 2],
+            ['path_bulk', 1, 0, 3],
             ['mark_used'], ['public_master'],
             ['new_account'], ['reopen']]
 EV_WATCH = [['new_key'], ['new_key_change'], ['get_key'], ['get_keys2'], ['new_keys3'], ['path_gap', 0, 7],
